@@ -2514,6 +2514,19 @@ func genGlobalVarDecl(nodes []*node, sc *scope) (*node, error) {
 	}
 
 	inited := map[*node]bool{}
+	// A dependency which is not part of the variables to initialize
+	// has already been initialized by a previous evaluation.
+	toInit := map[*node]bool{}
+	for _, n := range nodes {
+		toInit[n] = true
+	}
+	for _, n := range nodes {
+		for _, d := range deps[n] {
+			if !toInit[d] {
+				inited[d] = true
+			}
+		}
+	}
 	revisit := []*node{}
 	for {
 		for _, n := range nodes {
